@@ -67,9 +67,13 @@ func enumRuns(idx []int, layout int, mask uint, pattern int) []RunSpec {
 		spans = []span{{0, n, false}}
 	case 1:
 		spans = []span{{0, n, true}}
-	default:
+	case 2:
 		h := (n + 1) / 2
 		spans = []span{{0, h, false}, {h, n, true}}
+	case 3: // first rune in a run of its own (a base whose mark is shaped with another font, ...)
+		spans = []span{{0, 1, false}, {1, n, false}}
+	default: // last rune in a run of its own
+		spans = []span{{0, n - 1, false}, {n - 1, n, false}}
 	}
 	var runs []RunSpec
 	for si, sp := range spans {
@@ -87,7 +91,8 @@ func enumRuns(idx []int, layout int, mask uint, pattern int) []RunSpec {
 }
 
 // TestPropSmallScope enumerates exhaustively: every paragraph of length <= 4 (quick) / <= 5 (thorough)
-// over enumSyms x run layouts {one LTR run, one RTL run, LTR+RTL} x every partition of each run into
+// over enumSyms x run layouts {one LTR run, one RTL run, LTR+RTL split in the middle, first rune in its
+// own run, last rune in its own run} x every partition of each run into
 // clusters x glyphs per cluster {1, 2 (thorough)} x 3 policies x TruncateAfterLines in {0,1,2}
 // (x TextContinues when truncating) x every integer width from 0 to total+1 plus two extreme widths
 // (2^25-1 ... MaxInt64, rotating), through the iterative
@@ -121,6 +126,12 @@ func TestPropSmallScope(t *testing.T) {
 			}
 			si := segment(text)
 			layouts := 3
+			if n >= 3 {
+				layouts = 4 // split after the first rune differs from the middle split
+			}
+			if n >= 4 {
+				layouts = 5 // so does the split before the last rune
+			}
 			if n < 2 {
 				layouts = 2
 			}
@@ -133,8 +144,14 @@ func TestPropSmallScope(t *testing.T) {
 					nmask = 1 << uint(n-1)
 				}
 				for mask := uint(0); mask < nmask; mask++ {
-					if layout == 2 {
+					if layout >= 2 {
 						h := (n + 1) / 2
+						switch layout {
+						case 3:
+							h = 1
+						case 4:
+							h = n - 1
+						}
 						if mask&(1<<uint(h-1)) == 0 {
 							continue // the run boundary is a cluster boundary; enumerated once
 						}
